@@ -1560,4 +1560,140 @@ theorem modelIdx_gen (n : Nat) (s e t : Option Int) : modelIdx false n s e t = m
           rw [this]
 
 
+theorem sibEval_congr (sets : JV → Bool) (F1 F2 S1 S2 : Path × JV → List (Path × JV))
+    (hF : ∀ m, F1 m = F2 m) (hS : ∀ m, S1 m = S2 m) (l : List (Path × JV)) :
+    sibEval sets F1 S1 l = sibEval sets F2 S2 l := by
+  have h1 : F1 = F2 := funext hF
+  have h2 : S1 = S2 := funext hS
+  rw [h1, h2]
+
+/-- two evaluators with the same selection functions (and the same flag-setting elements) compute the same -/
+theorem evalSel_congr' (S T : Sel) (sib : Bool)
+    (hin : ∀ f v, S.inner f v = T.inner f v) (hsets : S.sets = T.sets) (hlast : ∀ f v, S.last f v = T.last f v) :
+    ∀ (x : List Frag) (v : JV), evalSel S sib x v = evalSel T sib x v
+  | [], v => by simp [evalSel]
+  | [f], v => by simpa [evalSel] using hlast f v
+  | f :: g :: r, v => by
+    rw [evalSel, evalSel]
+    simp only [hin, hsets]
+    split
+    · apply sibEval_congr
+      · intro m; rw [evalSel_congr' S T sib hin hsets hlast (g :: r) m.2]
+      · intro m; rw [evalSel_congr' S T sib hin hsets hlast r m.2]
+    · apply flatMap_congr'
+      intro m _
+      rw [evalSel_congr' S T sib hin hsets hlast (g :: r) m.2]
+
+/-- slice on a `gen.Array` (end clamped for a positive step only) against `[]any`, last position -/
+theorem sliceLast_gen (s e t : Option Int) (v : JV) :
+    Get.sliceLast Rep.gen s e t v = Get.sliceLast Rep.simple s e t v := by
+  cases v with
+  | arr xs =>
+    have h1 : Get.sliceLast Rep.gen s e t (.arr xs) = (modelIdx false xs.length s e t).flatMap (elemAt xs) := by
+      simp only [Get.sliceLast, Get.normFor, Rep.gen, modelIdx]
+      cases Get.norm false xs.length s e t <;> simp
+    rw [h1, sliceLast_arr, modelIdx_gen]
+  | _ => simp [Get.sliceLast]
+
+/-- … and in an inner position, where the `innerEmptySlice` deviation is out of the way -/
+theorem slicePush_gen (cfg : Cfg) (s e t : Option Int) (v : JV)
+    (hok : cfg.innerEmptySlice = false ∨ (-1 ≤ t.getD 1 ∧ t.getD 1 ≤ 1)) :
+    (Get.slicePush cfg Rep.gen s e t v).reverse = (Get.slicePush cfg Rep.simple s e t v).reverse := by
+  rw [slicePush_rev cfg s e t v hok, ← sliceLast_gen]
+  cases v with
+  | arr xs =>
+    simp only [Get.slicePush, Get.sliceLast, Get.normFor, Rep.gen, AK.typed, Bool.false_eq_true, ↓reduceIte]
+    rw [norm_eq]
+    by_cases h0 : t.getD 1 = 0
+    · simp [h0]
+    · by_cases hst : (xs.length : Int) ≤ nStart xs.length s
+      · simp [h0, hst]
+      · simp only [h0, hst, ↓reduceIte]
+        rw [flatMap_reverse_small _ _ (elemAt_small xs)]
+        have hs0 := nStart_nonneg xs.length s
+        rw [innerIdx_rev cfg xs.length _ (by omega) (by simpa using h0)
+          (by intro hp; have := nStop_le false xs.length e t hp; simp only; omega)
+          (by intro hp; have := nStop_ge false xs.length e t hp; simp only; omega)
+          (by simpa using hok)]
+  | _ => simp [Get.slicePush, Get.sliceLast]
+
+theorem get_last_gen (cfg : Cfg) (f : Frag) (v : JV) : Get.last cfg Rep.gen f v = Get.last cfg Rep.simple f v := by
+  cases f with
+  | slice s e t => exact sliceLast_gen s e t v
+  | wild => cases v <;> simp [Get.last, Get.wildKids, Rep.gen, Rep.simple]
+  | filter p => cases v <;> simp [Get.last, Get.filterKids, Rep.gen, Rep.simple, OKind.typed]
+  | _ => rfl
+
+theorem get_inner_gen (cfg : Cfg) (he : cfg.innerEmptySlice = false) (f : Frag) (v : JV) :
+    (Get.sel cfg Rep.gen).inner f v = (Get.sel cfg Rep.simple).inner f v := by
+  cases f with
+  | slice s e t =>
+    simp only [Get.sel, Get.push, contOnly, ← List.filter_reverse]
+    rw [slicePush_gen cfg s e t v (Or.inl he)]
+  | wild => cases v <;> simp [Get.sel, Get.push, Get.wildKids, Rep.gen, Rep.simple]
+  | filter p => cases v <;> simp [Get.sel, Get.push, Get.filterKids, Rep.gen, Rep.simple, OKind.typed]
+  | descent =>
+    have h1 : (cfg.typedMapWild && decide (Rep.gen.ok = OKind.rmap)) = false := by cases cfg.typedMapWild <;> rfl
+    have h2 : (cfg.typedMapWild && decide (Rep.simple.ok = OKind.rmap)) = false := by cases cfg.typedMapWild <;> rfl
+    simp [Get.sel, Get.push, h1, h2]
+  | _ => rfl
+
+/-- GetNodes' selection functions (node.go) with its three flags off are Get's on gen data -/
+theorem nodes_last (cfg : Cfg) (hu : cfg.nodesUnionNil = false) (hr : cfg.nodesFilterRev = false)
+    (hz : cfg.nodesFilterNull = false) (f : Frag) (v : JV) : Nodes.last cfg f v = Get.last cfg Rep.gen f v := by
+  cases f with
+  | union ms =>
+    simp only [Nodes.last, Get.last]
+    congr 1
+    funext mb
+    cases mb with
+    | key k => rfl
+    | idx i =>
+      cases v with
+      | arr xs =>
+        simp only [Nodes.unionLast, mMember, hu, Bool.false_eq_true, ↓reduceIte]
+        cases mIdx i (.arr xs) <;> rfl
+      | _ => simp [Nodes.unionLast, mMember, mIdx]
+  | slice s e t => simp only [Nodes.last, Get.last]; exact (sliceLast_gen s e t v).symm
+  | filter p => simp [Nodes.last, Get.last, hr, Nodes.filterKids, hz]
+  | _ => rfl
+
+theorem nodes_inner (cfg : Cfg) (he : cfg.innerEmptySlice = false) (hz : cfg.nodesFilterNull = false)
+    (f : Frag) (v : JV) : Nodes.inner cfg f v = (Get.sel cfg Rep.gen).inner f v := by
+  cases f with
+  | slice s e t =>
+    simp only [Nodes.inner, Get.sel, Get.push, contOnly, ← List.filter_reverse]
+    rw [slicePush_gen cfg s e t v (Or.inl he)]
+  | filter p => simp [Nodes.inner, Get.sel, Get.push, Nodes.filterKids, hz]
+  | _ => rfl
+
+/-- FirstNode's last-position selections with the flags off: the first of GetNodes' -/
+theorem firstNode_last (cfg : Cfg) (hl : cfg.firstNodeLast = false) (hu : cfg.nodesUnionNil = false)
+    (hr : cfg.nodesFilterRev = false) (f : Frag) (v : JV) :
+    FirstNode.last cfg f v = (Nodes.last cfg f v).take 1 := by
+  cases f with
+  | union ms =>
+    simp only [FirstNode.last, FirstNode.unionLast, hl, Bool.false_eq_true, ↓reduceIte, Nodes.last]
+    congr 2
+    funext mb
+    cases mb with
+    | key k => rfl
+    | idx i =>
+      cases v with
+      | arr xs =>
+        simp only [Nodes.unionLast, mMember, hu, Bool.false_eq_true, ↓reduceIte]
+        cases mIdx i (.arr xs) <;> rfl
+      | _ => simp [Nodes.unionLast, mMember, mIdx]
+  | slice s e t => simp only [FirstNode.last, Nodes.last]; exact first_sliceLast cfg s e t v
+  | filter p => simp [FirstNode.last, Nodes.last, hl, hr]
+  | wild => simp [FirstNode.last, Nodes.last, Get.last]
+  | descent => simp [FirstNode.last, Nodes.last, Get.last]
+  | child k =>
+    simp only [FirstNode.last, Nodes.last, Get.last]
+    exact (List.take_of_length_le (mKey_small k v)).symm
+  | nth i =>
+    simp only [FirstNode.last, Nodes.last, Get.last]
+    exact (List.take_of_length_le (mIdx_small i v)).symm
+
+
 end OjgVerif.JPath
